@@ -27,6 +27,7 @@ type c04Scenario struct {
 	SendAfterRefusal  bool       `json:"application_sends_after_a_failed_attempt,omitempty"`
 	DisconnectBetween bool       `json:"sessions_ended_by_disconnect,omitempty"`
 	NoRoutes          bool       `json:"application_registers_no_route,omitempty"` // unhandled IQ requests are answered by the library itself
+	TLSResumption     bool       `json:"tls_session_resumption,omitempty"`         // client session cache + server session tickets
 }
 
 func init() {
@@ -36,7 +37,7 @@ func init() {
 		Real:  []string{"xmpp.Client.Connect/Resume", "xmpp.NewSession TLS gate", "XMPPTransport.StartTLS", "crypto/tls + crypto/x509 on both ends"},
 		Stub:  []string{"TCP (simnet)", "XMPP server (scripted model, real tls.Server with Ed25519 fixture chains)", "clock (synctest; certificates valid around the fake epoch)", "goroutine scheduling (token scheduler)", "TLS entropy (seeded)"},
 		Run:   runC04,
-		Reach: []string{"c04.tls_established", "c04.websocket_address", "srv.request_after_client_closed"},
+		Reach: []string{"c04.tls_established", "c04.websocket_address", "srv.request_after_client_closed", "c04.tls_session_resumed"},
 	})
 }
 
@@ -53,7 +54,21 @@ func runC04(e *Engine, g G, o RunOpt) RunInfo {
 	if g.Pct("websocket-address", 10) {
 		return runC04WS(e, g, sc)
 	}
-	n := 1 + g.Weighted("nconns", 5, 3, 2)
+	// TLS session resumption: a resumed session carries the certificate of the first handshake, and
+	// it has to be valid for the account's domain just the same
+	sc.TLSResumption = sc.Client.TLS != TLSCfgNil && g.Pct("tls-resumption", 25)
+	sameCert := -1
+	if sc.TLSResumption {
+		sc.Client.TLSSessionCache = true
+		sc.Client.TLSMax12 = g.Bool("tls-resumption-1.2")
+		if g.Bool("tls-resumption-servername") {
+			sc.Client.ServerName = "alt.example"
+		}
+		if g.Pct("tls-resumption-same-cert", 70) {
+			sameCert = []int{CertAltName, CertAltName, CertBoth, CertGood, CertWrongHost}[g.N("tls-resumption-cert", 5)]
+		}
+	}
+	n := 1 + g.Weighted("nconns", 5, 3, 2+4*btoi(sc.TLSResumption))
 	if o.Avoiding("tls-state-stale-across-reconnect") {
 		n = 1
 	}
@@ -64,6 +79,12 @@ func runC04(e *Engine, g G, o RunOpt) RunInfo {
 			s.TLSReply = 1 + g.N("tlsreply", 4)
 		}
 		s.Cert = []int{CertGood, CertGood, CertBoth, CertWrongHost, CertUntrusted, CertExpired, CertAbort, CertAltName}[g.N("cert", 8)]
+		if sameCert >= 0 {
+			s.Cert, s.TLSReply = sameCert, TLSProceed
+			if s.StartTLS == TLSNone {
+				s.StartTLS = TLSOffered
+			}
+		}
 		if g.Pct("header-dev", 12) {
 			// the attempt already fails at the stream header, and the peer keeps reading
 			s.Header = []int{HdrWrongRoot, HdrMalformed, HdrStreamError}[g.N("header", 3)]
@@ -95,6 +116,7 @@ func runC04(e *Engine, g G, o RunOpt) RunInfo {
 	e.Run(func() {
 		srv = NewServer(e, SimDomain)
 		srv.Certs = sharedCerts()
+		srv.TLSTickets = sc.TLSResumption
 		for _, c := range sc.Conns {
 			srv.Scripts = append(srv.Scripts, c.Server)
 		}
@@ -177,6 +199,19 @@ func runC04(e *Engine, g G, o RunOpt) RunInfo {
 		if len(a.conn.Recv) > 0 {
 			reached = true
 		}
+		// A resumed TLS session shows no certificate: it stands on the certificate of the full
+		// handshake it descends from - one of the earlier ones of this client (which one depends on
+		// ticket bookkeeping inside crypto/tls; if any of them was acceptable nothing is asserted).
+		certOK := certAccepted(sc.Client, scr.Cert)
+		if a.conn.TLSResumed {
+			certOK = false
+			for j := 0; j < i; j++ {
+				if c := atts[j].conn; c != nil && c.HandshakeTLS == "ok" && !c.TLSResumed && certAccepted(sc.Client, sc.Conns[j].Server.Cert) {
+					certOK = true
+				}
+			}
+			e.Probe("c04.tls_session_resumed")
+		}
 		closedSeen := false
 		for _, r := range a.conn.Recv {
 			k := classifyReq(r)
@@ -193,23 +228,23 @@ func runC04(e *Engine, g G, o RunOpt) RunInfo {
 				e.Violate("C04", "cleartext:"+kindOnly(k), "connection #%d: client wrote %s in clear text although insecure connections are not allowed (server: starttls=%d reply=%d)", i, r.Item.Elem.Short(), scr.StartTLS, scr.TLSReply)
 				break
 			}
-			if r.TLS && !certAccepted(sc.Client, scr.Cert) {
+			if r.TLS && !certOK {
 				e.Violate("C04", fmt.Sprintf("unverified-tls:%s:cert=%d", kindOnly(k), scr.Cert), "connection #%d: client wrote %s over TLS although the certificate (kind %d) does not validate for %s (tls config %d, ServerName %q)", i, r.Item.Elem.Short(), scr.Cert, SimDomain, sc.Client.TLS, sc.Client.ServerName)
 				break
 			}
 		}
 		// Connect must fail whenever TLS cannot be established and verified and insecure is off
-		tlsPossible := scr.StartTLS != TLSNone && scr.TLSReply == TLSProceed && certAccepted(sc.Client, scr.Cert)
+		tlsPossible := scr.StartTLS != TLSNone && scr.TLSReply == TLSProceed && certOK
 		if !tlsPossible && !sc.Client.Insecure && a.err == nil {
 			e.Violate("C04", "connected-without-tls", "connection #%d: %s returned nil although no verified TLS session was possible and insecure is off", i, sc.Conns[i].Via)
 		}
-		if scr.StartTLS != TLSNone && scr.TLSReply == TLSProceed && !certAccepted(sc.Client, scr.Cert) && a.err == nil {
+		if scr.StartTLS != TLSNone && scr.TLSReply == TLSProceed && !certOK && a.err == nil {
 			e.Violate("C04", "connected-with-bad-certificate", "connection #%d: %s returned nil although the certificate does not validate", i, sc.Conns[i].Via)
 		}
 		if a.conn.TLS {
 			e.Probe("c04.tls_established")
 		}
-		if scr.StartTLS != TLSNone && scr.TLSReply == TLSProceed && !certAccepted(sc.Client, scr.Cert) {
+		if scr.StartTLS != TLSNone && scr.TLSReply == TLSProceed && !certOK {
 			e.Probe(fmt.Sprintf("c04.bad_cert_%d", scr.Cert))
 		}
 	}
